@@ -74,11 +74,37 @@ def _transpose(engine, st, a, perm):
     return V(Arr, [f(engine.keyterm(a), perm.c[0], perm.c[1])])
 
 
+REAL_FNS = ("max", "min", "sum", "log10", "linalg.norm", "abs_max")
+
+
 def x_do(engine, st, args, node, kw):
+    """autoray.do(name, *args, like=backend): transpose is the function the contract talks about; any other
+    name is an uninterpreted function of its arguments (a scalar for reductions and log10, else an array)."""
     fn = args[0]
-    if isinstance(fn, PyConst) and fn.val == "transpose":
+    if not (isinstance(fn, PyConst) and isinstance(fn.val, str)):
+        raise Unsupported("do() with a computed function name")
+    if fn.val == "transpose":
         return _transpose(engine, st, args[1], args[2])
-    raise Unsupported(f"do({getattr(fn, 'val', fn)!r})")
+    terms = []
+    for a in args[1:]:
+        a = engine.deref(st, a)
+        if not (isinstance(a, V) and len(a.c) == 1):
+            raise Unsupported(f"do({fn.val!r}) of a container")
+        terms.append(a.term)
+    res = Ty.RealS if fn.val in REAL_FNS else Ty.IntS
+    f = _uf(engine, f"uf!do!{fn.val}!{len(terms)}!" + "".join("r" if t.sort() == Ty.RealS else "i" for t in terms), *[t.sort() for t in terms], res)
+    return V(Ty.Real if fn.val in REAL_FNS else Arr, [f(*terms)])
+
+
+def x_div(engine, st, args, node, kw):
+    a, b = (engine.deref(st, x) for x in args)
+    bt = b.term if b.term.sort() == Ty.RealS else z3.ToReal(b.term)
+    return V(Arr, [_uf(engine, "uf!divide", Ty.IntS, Ty.RealS, Ty.IntS)(a.term, bt)])
+
+
+def x_log10(engine, st, args, node, kw):
+    a = engine.deref(st, args[0])
+    return V(Ty.Real, [_uf(engine, "uf!do!log10!1!r", Ty.RealS, Ty.RealS)(a.term)])
 
 
 def x_transpose(engine, st, args, node, kw):
@@ -153,13 +179,47 @@ call = Contract(
     assumptions=["called without keyword overrides, progress bar or exponent stripping; arrays are opaque values and einsum/tensordot/transpose uninterpreted functions of their arguments;"
                  " node_from_single(i) is an injective naming of the leaves (it is frozenset({i}))"],
 )
-call.abstract_stmts = {
+ABSTRACT = {
     "if backend is None:": ["backend"],
     "if implementation == 'auto':": ["implementation"],
     "if implementation == 'cotengra':": ["_einsum", "_tensordot"],
 }
+call.abstract_stmts = dict(ABSTRACT)
 call.expose = ("temps",)
-CONTRACTS = [call]
+
+# ------------------------------------------------------------ variant with exponent stripping (C19)
+# mantissa and exponent are kept consistent: whatever positive factor is split off a freshly computed
+# intermediate, the array stored is the intermediate divided by THAT factor and the exponent grows by
+# log10 of THAT factor (so mantissa * 10**exponent is unchanged by the bookkeeping, given that the
+# pairwise operations are linear in each operand - not mechanised).  Which factor is chosen (max |x|) is
+# what keeps the mantissa in range; that part of C19 is decided by the bounded driver only.
+STRIP_PAIR = [
+    f"implies({pL} is not None, {pP} in temps and temps[{pP}] == divide({COMBINED}, factor))",
+    f"implies({pL} is not None, exponent == prev(exponent) + log10(factor))",
+    STEP_PAIR[1],
+    f"implies({pL} is not None, p_array == temps[{pP}])",
+]
+STRIP_SINGLE = STEP_SINGLE + [f"implies({pL} is None, exponent == prev(exponent))"]
+strip = Contract(
+    target="cotengra.contract:Contractor.__call__",
+    variant="strip",
+    props=["C01", "C19"],
+    self_type=ConT,
+    params={"arrays": Ty.List(Arr), "kwargs": PyConst({})},
+    requires=["self.strip_exponent", "not self.progbar", "not self.check_zero"] + _pre(),
+    returns=Ty.Tuple([Arr, Ty.Real]),
+    externals=dict(call.externals, **{"binop:Div": x_div, "divide": x_div, "log10": x_log10}),
+    hints=dict(call.hints, factor=Ty.Real, exponent=Ty.Real),
+    nloops=1,
+    loops={0: Loop(pos="t", inv=[INV_LIVE, INV_LAST], step=STRIP_PAIR + STRIP_SINGLE)},
+    ensures=[],
+    ensures_t1=["result[0] == temps_final[self.contractions[len(self.contractions) - 1][0]]", "result[1] == exponent_final"],
+    assumptions=["called without keyword overrides or progress bar, check_zero off; arrays are opaque values; einsum/tensordot/transpose/divide, the reduction max|x| and log10 are uninterpreted"
+                 " functions of their arguments; node_from_single(i) is an injective naming of the leaves"],
+)
+strip.abstract_stmts = dict(ABSTRACT)
+strip.expose = ("temps", "exponent")
+CONTRACTS = [call, strip]
 
 
 # ------------------------------------------------------------ native side: symbolic arrays
@@ -196,6 +256,8 @@ def _sym_tensordot(a, b, axes):
 
 
 def _sym_transpose(a, perm):
+    if not isinstance(a, Sym):
+        return a  # (the one-element arrays of the exponent-stripping variant)
     return Sym(("transpose", a.expr, _freeze(perm)))
 
 
@@ -278,3 +340,71 @@ def _gen(rng):
 
 call.gen = _gen
 call.pre_must_hold = True  # schedules come from extract_contractions on real trees
+
+
+class Num:
+    """A one-element 'array' for the exponent-stripping variant: pairwise operations multiply, so the plain
+    result is the product of the inputs and mantissa * 10**exponent must reproduce it."""
+
+    __module__ = "vt_symarr"
+
+    def __init__(self, v):
+        self.v = float(v)
+
+    def __truediv__(self, other):
+        return Num(self.v / float(getattr(other, "v", other)))
+
+    def __mul__(self, other):
+        return Num(self.v * float(getattr(other, "v", other)))
+
+    def __float__(self):
+        return self.v
+
+    def __repr__(self):
+        return f"Num({self.v!r})"
+
+
+def _install_num_backend():
+    import math
+    import sys
+
+    _install_backend()
+    m = sys.modules["vt_symarr"]
+    m.abs = lambda x: Num(abs(x.v))
+    m.max = lambda x: x.v
+    m.log10 = lambda x: math.log10(float(getattr(x, "v", x)))
+    import types
+
+    m.linalg = types.SimpleNamespace(norm=lambda x: abs(x.v))
+
+
+def _product(arrays):
+    out = 1.0
+    for a in arrays:
+        out *= a.v
+    return out
+
+
+def _close(a, b):
+    return abs(a - b) <= 1e-9 * max(abs(a), abs(b), 1e-300)
+
+
+strip.natives = {"leaf": call.natives["leaf"], "product": _product, "close": _close}
+strip.ensures_rt = ["close(result[0].v * 10.0 ** result[1], product(arrays))"]
+
+
+def _gen_strip(rng):
+    from cotengra.contract import Contractor
+
+    case = _gen(rng)
+    if case is None:
+        return None
+    _install_num_backend()
+    mul2 = lambda eq, *xs: xs[0] if len(xs) == 1 else xs[0] * xs[1]  # noqa: E731
+    con = Contractor(case["self"].contractions, implementation=(mul2, lambda a, b, axes: a * b), strip_exponent=True)
+    arrays = tuple(Num(rng.choice([-1, 1]) * 10.0 ** rng.uniform(-30, 30)) for _ in case["args"])
+    return {"self": con, "args": arrays, "bind": {"arrays": arrays, "kwargs": {}}, "describe": case["describe"] + f" values={[a.v for a in arrays]}"}
+
+
+strip.gen = _gen_strip
+strip.pre_must_hold = True
